@@ -1,58 +1,87 @@
-"""Wild-card context rules shared by C02, C10, C14."""
+"""Wild-card context rules shared by C02, C10, C14 - written over normalised terms (norm.py), whole-module inlining and
+the printed-text evaluator (render.py), so that idiom and helper-structure changes do not matter."""
 import evalnode as E
+import norm
 import pipelines
+import q
+import render
 import semantics as sem
 import terms
-from terms import subterms, pt, place_path
+from norm import GET
+from terms import subterms, pt
 
 UTILS = "preprocessing::utils::"
+CTXMOD = "evaluation::eval_context::"
+OE = "preprocessing::operator_enums::"
+
+
+def iter_src(t):
+    while isinstance(t, tuple) and t and t[0] == "call" and isinstance(t[1], str) and t[1].rsplit("::", 1)[-1] in \
+            ("iter", "into_iter", "rev", "cloned", "copied", "by_ref", "enumerate", "drain", "keys") and len(t[2]) >= 1:
+        t = t[2][0]
+    return t
+
+
+def elems_over(t, src_pred):
+    return [x for x in [t] + list(subterms(t)) if x[0] == "elem" and src_pred(iter_src(x[1]))]
 
 
 def check_context_presence(prog, rep, rule):
-    # (a) validate_and_divide_wild_cards: every collected label is tested, absence returns Err, the copied set is the context's
+    # (a) validate_and_divide_wild_cards: every collected label is looked up in the context, absence gives Err,
+    #     the returned maps carry exactly the context's own sets under the same labels
     f = prog.lib_fn(UTILS + "validate_and_divide_wild_cards")
     if f is None:
         rep.unresolved(rule, "validate_and_divide_wild_cards", "", "function not found")
         return
     rep.functions.add(f.qual)
-    eng = terms.Engine(prog, inline=False)
+    eng = terms.Engine(prog, inline=True, hooks=E.Hooks([UTILS]))
     s = eng.summary(f)
     pn = f.param_names()
     tree, ctx = ("param", pn[0]), ("param", pn[1])
-    coll = [x for x in s.sites if x.kind == "call" and x.is_call_to("collect_unique_wild_cards")]
-    ok = len(coll) == 1 and terms.mentions_param(coll[0].args[0], pn[0])
+    coll = [x for x in s.all_sites() if x.kind == "call" and x.is_call_to("collect_unique_wild_cards")]
+    ok = len(coll) >= 1 and all(terms.mentions_param(c.args[0], pn[0]) for c in coll) and len({c.term for c in coll}) == 1
     rep.check(ok, rule, "validate/collect", f"{f.file}:{f.line}", "labels come from collect_unique_wild_cards(tree)",
               "labels are not collected from the given tree")
-    fors = [x for x in s.sites if x.kind == "for"]
+    labels = coll[0].term if coll else None
+    oks = [r for r in s.returns if r[5] in ("tail", "return") and r[0][0] == "ctor" and str(r[0][1]).endswith("Ok")]
+    errs_ret = [r for r in s.returns if r[5] == "return" and r[0][0] == "ctor" and str(r[0][1]).endswith("Err")]
+    tries = [r for r in s.returns if r[5] == "try"]
     covered = set()
-    for fs in fors:
-        it = fs.args[0]
-        which = None
-        for x in subterms(it):
-            if x[0] == "tproj" and coll and x[1] == coll[0].term:
-                which = x[2]
-        if which is None:
-            continue
-        lid = fs.node["id"]
-        elem = ("elem", it)
-        inside = [x for x in s.sites if lid in x.loops]
-        cks = [x for x in inside if x.kind == "mcall" and x.name == "contains_key" and x.args[0] == ctx and elem in list(subterms(x.args[1])) + [x.args[1]]]
-        errs = [r for r in s.returns if r[5] == "return" and r[0][0] == "ctor" and r[0][1].endswith("Err")
-                and any(c[0] == "loop" and c[1] == lid for c in r[1])]
-        # the Err return must be taken exactly when contains_key is false
+    for which in (0, 1):
+        def is_src(t, which=which):
+            return t == ("tproj", labels, which)
+        key = f"validate/labels#{which}"
+        # the Ok result: component `which` maps label -> context[label]
+        comp_ok = False
+        for r in oks:
+            payload = r[0][2][0] if r[0][2] else None
+            comp = terms.mk_tproj(payload, which) if payload is not None and payload[0] == "tuple" else None
+            if comp is None:
+                continue
+            es = elems_over(comp, is_src)
+            gets = [x for x in subterms(comp) if x[0] == "call" and x[1] == GET and x[2][0] == ctx and es and any(y == es[0] for y in [x[2][1]] + list(subterms(x[2][1])))]
+            foreign = [x for x in subterms(comp) if x[0] == "elem" and not is_src(iter_src(x[1]))]
+            if es and gets and not foreign:
+                comp_ok = True
+        # Err on absence: an explicit `return Err` under "context lacks the label", or `?` on ok_or / ok_or_else of the look-up
         err_ok = False
-        for r in errs:
-            for c in r[1]:
-                if c[0] == "if" and cks and c[1] in (("not", cks[0].term), cks[0].term) and ((c[1][0] == "not") == c[2]):
+        for r in errs_ret:
+            for t, pol in q.conds(r[1]):
+                h = q.as_has(t)
+                if h is not None and not pol and h[0] == ctx and elems_over(h[1], is_src):
                     err_ok = True
-        ins = [x for x in inside if x.kind == "mcall" and x.name == "insert" and len(x.args) == 3]
-        ins_ok = bool(ins) and all(any(y[0] == "call" and y[1].endswith("::get") and y[2][0] == ctx for y in subterms(i.args[2])) and
-                                   (i.args[1] == elem or elem in list(subterms(i.args[1]))) for i in ins)
-        good = bool(cks) and err_ok and ins_ok
-        covered.add(which)
-        rep.check(good, rule, f"validate/labels#{which}", fs.where(),
-                  "each label: contains_key(context) else Err; copied set = context[label]",
-                  f"label loop #{which}: presence test={bool(cks)}, Err on absence={err_ok}, copies the context's own set under the same label={ins_ok}")
+        for r in tries:
+            t = r[0]
+            if ((t[0] == "hof" and t[1] in ("ok_or_else",)) or (t[0] == "call" and isinstance(t[1], str) and t[1].endswith("ok_or"))):
+                inner = t[2] if t[0] == "hof" else t[2][0]
+                g = q.as_get(inner)
+                if g is not None and g[0] == ctx and elems_over(g[1], is_src):
+                    err_ok = True
+        if comp_ok and err_ok:
+            covered.add(which)
+        rep.check(comp_ok and err_ok, rule, key, f"{f.file}:{f.line}",
+                  "each label: looked up in the context, Err when absent; returned set = context[label] under the same label",
+                  f"label kind #{which} ({'propositions' if which == 0 else 'domains'}): returned map is {{label -> context[label]}}={comp_ok}, Err on absence={err_ok}")
     rep.check(covered == {0, 1}, rule, "validate/both-kinds", f"{f.file}:{f.line}", "wild-card propositions and domains are both validated",
               f"validated label kinds: {sorted(covered)} (0 = propositions, 1 = domains)")
     # (b) every extended entry point validates every tree before evaluating it, and feeds the validated maps to the context
@@ -73,99 +102,105 @@ def check_context_presence(prog, rep, rule):
             v, e = vals[0], ext[0]
             if not (ctxp and v.args[1] == ("param", ctxp[0])):
                 good, why = False, "validation is not made against the caller's context map"
-            # the maps given to the context derive from the validation result
-            elif not all(any(y == v.term for y in subterms(a)) for a in e.args[1:3]):
+            elif not all(any(y == v.term for y in [a] + list(subterms(a))) for a in e.args[1:3]):
                 good, why = False, "the maps handed to extend_context_with_wild_cards do not derive from validate_and_divide_wild_cards"
             else:
-                # the evaluated trees are the validated ones
                 tr = v.args[0]
-                base = [y for y in subterms(tr) if y[0] == "call" and y[1].endswith("parse_and_minimize_extended_formula")]
+                base = [y for y in [tr] + list(subterms(tr)) if y[0] == "call" and y[1].endswith("parse_and_minimize_extended_formula")]
                 node = evs[0].args[0]
-                if not base or not any(y == base[0] for y in subterms(node)):
+                if not base or not any(y == base[0] for y in [node] + list(subterms(node))):
                     good, why = False, "the evaluated tree is not the tree that was validated"
         rep.check(good, rule, f"{ep.name}/validated", f"{ep.file}:{ep.line}", "trees are validated against the context before evaluation", why)
     return n
 
 
+def leaves(t, conds=()):
+    if isinstance(t, tuple) and t and t[0] == "ite":
+        return leaves(t[2], conds + ((t[1], True),)) + leaves(t[3], conds + ((t[1], False),))
+    return [(conds, t)]
+
+
 def check_wildcard_binding(prog, rep, rule, en):
     """extend_context_with_wild_cards installs (set, counter) under the key the terminal prints as; the terminal is served from the cache."""
-    f = prog.lib_fn("evaluation::eval_context::EvalContext::extend_context_with_wild_cards")
+    f = prog.lib_fn(CTXMOD + "EvalContext::extend_context_with_wild_cards")
     if f is None:
         rep.unresolved(rule, "extend_context_with_wild_cards", "", "function not found")
         return
     rep.functions.add(f.qual)
-    eng = terms.Engine(prog, inline=False)
+    eng = terms.Engine(prog, inline=True, hooks=E.Hooks([CTXMOD]))
     s = eng.summary(f)
     pn = f.param_names()
-    props, doms = ("param", pn[1]), ("param", pn[2])
-    # Display template of Atomic::WildCardProp
-    disp = None
-    for q, fn in prog.fns.items():
-        if fn.path.endswith("Atomic as std::fmt::Display>::fmt"):
-            ds = eng.summary(fn)
-            for st in ds.sites:
-                if st.kind == "mcall" and st.name == "write_fmt":
-                    for c in st.pc:
-                        if c[0] == "match" and c[3] and c[2][0] == "var" and str(c[2][1]).endswith("Atomic::WildCardProp"):
-                            fm = [x for x in subterms(st.args[1]) if x[0] == "fmt"]
-                            if fm:
-                                disp = tuple(p if isinstance(p, str) else "{}" for p in fm[0][1])
-    fors = [x for x in s.sites if x.kind == "for"]
-    pfor = [x for x in fors if any(y == props for y in subterms(x.args[0]))]
-    dfor = [x for x in fors if any(y == doms for y in subterms(x.args[0]))]
+    selfp, props, doms = pn[0], ("param", pn[1]), ("param", pn[2])
     where = f"{f.file}:{f.line}"
-    if len(pfor) != 1 or len(dfor) != 1:
-        rep.unresolved(rule, "extend/loops", where, "expected one loop over the proposition context and one over the domain context")
-        return
-    lid = pfor[0].node["id"]
-    elem = ("elem", pfor[0].args[0])
-    inside = [x for x in s.sites if lid in x.loops]
-    cins = [x for x in inside if x.kind == "mcall" and x.name == "insert" and (place_path(x.argnodes[0]) or "") == f"{pn[0]}.cache"]
-    dins = [x for x in inside if x.kind == "mcall" and x.name == "insert" and (place_path(x.argnodes[0]) or "") == f"{pn[0]}.duplicates"]
-    good = len(cins) == 1 and len(dins) >= 1
-    why = f"{len(cins)} cache inserts, {len(dins)} counter inserts inside the loop"
+    sites = s.all_sites()
+    nz = norm.Normalizer()
+
+    def over(site, coll):
+        """The site runs once per element of `coll` (inside a loop / iterator closure over it): its arguments mention elem(coll)."""
+        return [e for a in (site.args or []) for e in elems_over(a, lambda t: t == coll)]
+
+    cins = [x for x in sites if x.kind == "mcall" and x.name == "insert" and q.place_is(x.args[0], selfp, "cache")]
+    dwrites = [x for x in sites if (x.kind == "mcall" and x.name in ("insert", "entry", "get_mut") and q.place_is(x.args[0], selfp, "duplicates"))]
+    dincs = [x for x in sites if x.kind == "assignop" and x.args and ("duplicates" in pt(x.args[0]))]
+    good = len(cins) == 1 and bool(over(cins[0], props))
+    why = f"{len(cins)} cache inserts in the proposition loop"
+    key = None
     if good:
+        elem = over(cins[0], props)[0]
         key = cins[0].args[1]
-        fm = [x for x in subterms(key) if x[0] == "fmt"]
-        tmpl = tuple(p if isinstance(p, str) else "{}" for p in fm[0][1]) if fm else None
-        name_ok = bool(fm) and all(isinstance(p, str) or p[1] == ("tproj", elem, 0) for p in fm[0][1])
-        if disp is None or tmpl != disp or not name_ok:
-            good, why = False, f"cache key template {tmpl} differs from the Display template of Atomic::WildCardProp {disp} (or is not built from the label)"
+        ktxt = terms.mk_tproj(key, 0) if key[0] == "tuple" else key
+        pieces = render.string_pieces(ktxt)
+        want = render.printed(prog, "Atomic", ("ctor", OE + "Atomic::WildCardProp", (("tproj", elem, 0),)))
+        same_text = want is not None and render.shape(pieces) == render.shape(want) and \
+            [p[1] for p in pieces if isinstance(p, tuple)] == [p[1] for p in want if isinstance(p, tuple)]
+        if not same_text:
+            good, why = False, (f"cache key text {render.shape(pieces)} over {[sem.short(p[1], 30) for p in pieces if isinstance(p, tuple)]} differs from what "
+                                f"Atomic::WildCardProp(label) prints ({render.shape(want) if want else None}): the terminal would never hit its entry")
         val = cins[0].args[2]
         if good and not (val[0] == "tuple" and val[1][0] == ("tproj", elem, 1)):
             good, why = False, f"the cached value {sem.short(val, 100)} is not the context's set for that label"
-        if good and not all(alg_same_key(d.args[1], key) for d in dins):
-            good, why = False, "counter and cache entry are installed under different keys"
-        # domains: empty for wild-cards
-        if good and not (key[0] == "tuple" and key[1][1][0] == "call" and key[1][1][1].endswith("::new")):
-            good, why = False, "wild-card key must carry an empty domain map"
-    rep.check(good, rule, "extend/proposition-entry", pfor[0].where(),
-              "cache[(Display of %name%, {})] = (context set, {}) installed together with its counter", why)
-    # counter incremented by one / set to one
-    inc_ok = False
-    for d in dins:
-        v = d.args[2]
-        if v == ("lit", 1) or (v[0] == "bin" and v[1] == "+" and v[3] == ("lit", 1)):
-            inc_ok = True
-        else:
-            inc_ok = False
-            break
-    rep.check(inc_ok and len(dins) == 2, rule, "extend/counter", pfor[0].where(), "counter = previous + 1 (or 1)",
-              f"counter updates: {[sem.short(d.args[2], 60) for d in dins]}")
-    lid2 = dfor[0].node["id"]
-    elem2 = ("elem", dfor[0].args[0])
-    dsets = [x for x in s.sites if lid2 in x.loops and x.kind == "mcall" and x.name == "insert" and (place_path(x.argnodes[0]) or "") == f"{pn[0]}.domain_raw_sets"]
-    rep.check(len(dsets) == 1 and dsets[0].args[1] == ("tproj", elem2, 0) and dsets[0].args[2] == ("tproj", elem2, 1), rule, "extend/domain-entry", dfor[0].where(),
-              "domain_raw_sets[label] = context set", "domain sets are not installed under their own label")
+        if good and not (key[0] == "tuple" and terms.is_fresh_collection(key[1][1]) and val[0] == "tuple" and terms.is_fresh_collection(val[1][1])):
+            good, why = False, "wild-card key / value must carry an empty domain map and an empty renaming"
+    rep.check(good, rule, "extend/proposition-entry", cins[0].where() if cins else where,
+              "cache[(text of %label%, {})] = (context set, {}) for every label of the proposition context", why)
+    # counter: installed under the same key, value = previous + 1 (or 1 when absent)
+    c_ok = bool(dwrites or dincs) and key is not None
+    why = "no counter update found"
+    if c_ok:
+        for d in dwrites:
+            if d.name == "insert":
+                if d.args[1] != key:
+                    c_ok, why = False, "counter and cache entry are installed under different keys"
+                    break
+                for conds, leaf in leaves(nz(d.args[2])):
+                    known = list(conds) + q.conds(d.pc)
+                    has = [pol for t, pol in known if q.as_has(t) is not None and q.place_is(q.as_has(t)[0], selfp, "duplicates")]
+                    if leaf == ("lit", 1):
+                        if has and has[-1]:
+                            c_ok, why = False, "counter is reset to 1 although an entry exists"
+                    elif leaf[0] == "bin" and leaf[1] == "+" and ("lit", 1) in (leaf[2], leaf[3]):
+                        old = leaf[3] if leaf[2] == ("lit", 1) else leaf[2]
+                        at = q.as_at(old)
+                        if at is None or not q.place_is(at[0], selfp, "duplicates") or at[1] != key:
+                            c_ok, why = False, f"counter update {sem.short(leaf, 60)} is not `previous + 1` of the same key"
+                    else:
+                        c_ok, why = False, f"counter value {sem.short(leaf, 60)} is neither 1 nor previous + 1"
+            elif d.name in ("entry", "get_mut") and d.args[1] != key:
+                c_ok, why = False, "counter and cache entry are installed under different keys"
+        for d in dincs:
+            if not (d.args[1] == ("lit", 1) and (d.term or ("", ""))[1] == "+"):
+                c_ok, why = False, "counter is not incremented by exactly one"
+    rep.check(c_ok, rule, "extend/counter", where, "counter[key] = previous + 1 (1 when absent), same key as the cache entry", why)
+    dsets = [x for x in sites if x.kind == "mcall" and x.name == "insert" and q.place_is(x.args[0], selfp, "domain_raw_sets")]
+    good = len(dsets) == 1 and bool(over(dsets[0], doms))
+    if good:
+        e2 = over(dsets[0], doms)[0]
+        good = dsets[0].args[1] == ("tproj", e2, 0) and dsets[0].args[2] == ("tproj", e2, 1)
+    rep.check(good, rule, "extend/domain-entry", dsets[0].where() if dsets else where,
+              "domain_raw_sets[label] = context set for every label of the domain context", "domain sets are not installed under their own label")
     # the terminal is only ever served from the cache: the only feasible paths for the shape are cache hits
     shape = E.shape_atom("WildCardProp", E.lit("p"))
     rs = [r for r in en.specialise(shape) if r["term"] != terms.NEVER]
     hits = [r for r in rs if sem.is_cache_path(r)]
     rep.check(len(rs) == len(hits) == 1, rule, "eval_node/wild-card-served-from-cache", f"{en.fn.file}:{en.fn.line}",
               "wild-card terminal: exactly the cache-hit path is feasible", f"{len(rs)} feasible paths, {len(hits)} of them cache hits")
-    # the key the reader builds for a wild-card terminal: canonical text of node.to_string() -- Display of the node is its formula_str,
-    # which mk_atom sets to atom.to_string(): checked in C06-R3; canonize_subform copies '%' and name characters (C10-R1)
-
-
-def alg_same_key(a, b):
-    return a == b
